@@ -90,7 +90,7 @@ pub fn check_alignment(times_in: &[(f64, f64)], d: &[usize], params: &[MeanVari]
 
 pub fn run(tier: Tier) -> i32 {
     let rep = Report::new("C09", tier, "model_checking");
-    rep.set_rule("SCOPE: full product of per-label annotations {none, start only, end only, both} with times from {0,.4,.5,1,2.5,7,30,100.49,2999} frames over utterances of 1..N labels x state counts, through the real Labels::new + DurationEstimator::create_with_alignment; end-to-end string form on V0 and a generated voice; distinct = (annotation vector, nstate); non-trivial = at least one label with a known end");
+    rep.set_rule("SCOPE: full product of per-label annotations {none, start only, end only, both} with times from {0,.4,.5,1,2.5,7,30,100.49,2999} frames over utterances of 1..N labels x state counts, through the real Labels::new + DurationEstimator::create_with_alignment; end-to-end string form on V0 and a generated voice (6 rate/period cells, speeds 1, 0.5 and 3 where every label has a known end); distinct = (annotation vector, nstate); non-trivial = at least one label with a known end");
     rep.assume("times are on the 9-point frame lattice; utterances have at most 3 (quick) / 4 (thorough) labels in the exhaustive part");
     let ann = annotations();
     let lab = labels::parse(&labels::corpus()[1]);
@@ -208,8 +208,15 @@ pub fn run(tier: Tier) -> i32 {
             if fp == 1 && ename == "V0" {
                 continue;
             }
-            for pat in &patterns {
+            for (pat, speed) in patterns.iter().flat_map(|p| [1.0f64, 0.5, 3.0].into_iter().map(move |s| (p, s))) {
+                // the alignment decides the frame counts, whatever the speaking rate; speeds other than 1 only where
+                // every label is covered by a known end (the statement does not say at which speed trailing labels
+                // without an end fall back to their model durations)
+                if speed != 1.0 && (pat.last().unwrap().1.is_none() || (rate, fp) != unit_cells[0] && (rate, fp) != unit_cells[5]) {
+                    continue;
+                }
                 let mut e = base.clone();
+                e.condition.set_speed(speed);
                 e.condition.set_sampling_frequency(rate);
                 e.condition.set_fperiod(fp);
                 e.condition.set_phoneme_alignment_flag(true);
@@ -240,7 +247,7 @@ pub fn run(tier: Tier) -> i32 {
                 rep.eval(1);
                 e2e.fetch_add(1, Ordering::Relaxed);
                 nontriv.fetch_add(1, Ordering::Relaxed);
-                let rp = json!({"engine": ename, "rate": rate, "fperiod": fp, "lines": lines});
+                let rp = json!({"engine": ename, "rate": rate, "fperiod": fp, "speed": speed, "lines": lines});
                 match r {
                     Err(p) => rep.violation(format!("e2e-panic@{}", site_of(&p)), p, rp),
                     Ok(Err(er)) => rep.violation("e2e-error", format!("well-formed aligned labels rejected: {}", er), rp),
